@@ -1,6 +1,6 @@
 from array import array
 
-from whoosh.compat import xrange
+from whoosh.compat import b, xrange
 from whoosh.system import emptybytes
 from whoosh.system import pack_byte, unpack_byte
 from whoosh.system import pack_ushort_le, unpack_ushort_le
@@ -353,7 +353,7 @@ class GInts(NumberEncoding):
             elif code == 1:
                 yield f.read_ushort_le()
             elif code == 2:
-                yield unpack_uint_le(f.read(3) + "\x00")[0]
+                yield unpack_uint_le(f.read(3) + b("\x00"))[0]
             else:
                 yield f.read_uint_le()
 
